@@ -310,7 +310,7 @@ func runC14(c *vf.Ctx) {
 	c14HeaderDomain(c)
 	maxSize, maxN := 20, 3
 	if thorough {
-		maxSize, maxN = 26, 4
+		maxSize, maxN = 34, 4
 		c.SetBudget(12 * 60 * 1e9)
 	}
 	c.Rule = "(A) framing: streams of 1..n NAL units, each of EVERY size 1..S (HEVC: 2..S) so that every start-code alignment and total length modulo the machine word is hit, every start-code length pattern in {3,4}^n, content class {non-zero filler, interior single zeros, interior 00 00 03}; (B) types: all type sequences of length 1..4 over {1,5,6,7,8,9} (AVC) / {1,19,20,21,32,33,34,39} (HEVC) with sizes {2,5}; every helper (extract, both conversions, sample walkers, type lists, contains, IDR/RAP, parameter sets from sample and byte stream, nalus of type with and without stopAtVideo, first video NAL unit) is compared with the generating unit list; the byte-at-a-time reference scanner is checked against the generator on every stream; (C) GetNaluType / IsVideoNaluType of both codecs over all 256 header bytes / type values."
